@@ -547,8 +547,33 @@ pub fn c18(thorough: bool, rng: &mut Rng, out: &mut Out) {
 // ---------------------------------------------------------------------------------------------
 // C20 port set-up
 
+/// Every kind of error a refusing device call can return (serial_core::ErrorKind::{NoDevice, InvalidInput,
+/// Io(Interrupted | TimedOut | Other | WouldBlock | PermissionDenied)}) at every configuration call, for both
+/// constructors and the direct call, over a sample of prior settings: the constructor must return the error.
+fn c20_error_kinds(thorough: bool, out: &mut Out) {
+    let priors = ["0,1,2,1,1", "7,3,0,0,0", "6,2,1,1,2", "o0,0,2,1,1", "10,3,0,1,0", "3,1,1,0,2"];
+    for kind in ['n', 'v', 'i', 't', 'o', 'w', 'p'] {
+        for fail in ["read", "baud", "write", "timeout"] {
+            for entry in ["serial", "odk", "cfg:1234"] {
+                for (k, prior) in priors.iter().enumerate() {
+                    if !thorough && k >= 2 && kind != 'i' {
+                        continue;
+                    }
+                    let i = out.case(format!("port {} {} {}:{}", entry, prior, fail, kind), true);
+                    out.stat(&format!("port.errkind.{}", kind));
+                    let got = out.impls[i].clone();
+                    if !got.starts_with("err ") {
+                        out.fail(i, format!("C20 the port refused {} (error kind {}) but the constructor did not return an error: '{}'", fail, kind, got));
+                    }
+                }
+            }
+        }
+    }
+}
+
 pub fn c20(thorough: bool, rng: &mut Rng, out: &mut Out) {
-    out.rule = "every prior PortSettings value (11 standard baud rates + BaudOther{0,19200,4000000} x 4 character sizes x 3 parities x 2 stop bits x 3 flow controls = 1008) x failure injected at read_settings / set_baud_rate / write_settings / set_timeout / nowhere x {SerialSignBus::try_new, Odk::try_new, configure_port with a caller timeout}; non-trivial = every case; distinct = distinct case line".into();
+    c20_error_kinds(thorough, out);
+    out.rule = "every prior PortSettings value (11 standard baud rates + BaudOther{0,19200,4000000} x 4 character sizes x 3 parities x 2 stop bits x 3 flow controls = 1008) x failure injected at read_settings / set_baud_rate / write_settings / set_timeout / nowhere x {SerialSignBus::try_new, Odk::try_new, configure_port with a caller timeout}; plus every error kind (NoDevice, InvalidInput, Io Interrupted / TimedOut / Other / WouldBlock / PermissionDenied) at every failure point for a sample of prior settings; non-trivial = every case; distinct = distinct case line".into();
     out.exhaustive_note = "thorough: the product prior settings x failure points x entry points is enumerated completely; quick skips two thirds of the failure cases of the non-default entry points".into();
     out.exhaustive = thorough;
     let mut bauds: Vec<String> = (0..11).map(|b| b.to_string()).collect();
